@@ -176,6 +176,10 @@ structure Dir (α : Type) where
   encSeq : Nat := 0
   /-- SETTINGS_HEADER_TABLE_SIZE last applied to this direction's encoder and decoder (opaque HPACK) -/
   tableSize : Nat := 4096
+  /-- `dynamicTable.allowedMaxSize` of this direction's HPACK decoder: the largest dynamic table size
+      update (RFC 7541 §6.3) it accepts at the start of a header block of its source.  `newRelay` lifts
+      it to `math.MaxUint32` and nothing changes it afterwards (`Model/H2TableCap.lean`) -/
+  decoderCap : Nat := 4294967295
   /-- `Framer.lastHeaderStream` of the reading Framer: a HEADERS block is open on this stream -/
   expectCont : Option Nat := none
   /-- `relayFrames` has returned (read error): nothing is read from this direction's source any more -/
